@@ -176,8 +176,14 @@ HAND = [
     ("suzuki-bare", "[C:1][Br:2].[B:3][C:4]>>[C:1][C:4].[B:3][Br:2]", ["CCC(C)C.OB(O)Br", "CCCC.BBr", "CC1CC1.BrB(O)O"], [True], ["I"]),
     ("suzuki-bare-small-BBr", "[C:3][Br:1].[B:2][C:4]>>[C:3][C:4].[B:2][Br:1]", ["CCC(C)C.OB(O)Br"], [True], ["I"]),
     ("metathesis-bare", "[C:1]=[C:2].[C:3]=[C:4]>>[C:1]=[C:3].[C:2]=[C:4]", ["CC=C.C=CC", "CC=CC.C=C", "C=CC=C", "C1=CCC=CC1"], [False], ["I"]),
-    ("halogen-exchange-bare", "[C:1][Cl:2].[C:3][Br:4]>>[C:1][Br:4].[C:3][Cl:2]", ["ClCCl.BrCBr", "ClCCBr", "ClCCBr.ClCCBr", "ClC(Cl)Br.BrCC"], [False, True], ["I"]),
+    ("halogen-exchange-bare", "[C:1][Cl:2].[C:3][Br:4]>>[C:1][Br:4].[C:3][Cl:2]", ["ClCCl.BrCBr", "ClCCBr", "ClCCBr.ClCCBr", "ClC(Cl)Br.BrCC",
+                               # exactly ONE component-aware match (C-Cl only in the first molecule), two exhaustive ones: a fallback that asks for
+                               # "more than one" primary match instead of "any" shows here
+                               "ClCCBr.CBr"], [False, True], ["I"]),
     ("dimerisation-bare", "[C:1][SH:2].[C:3][SH:4]>>[C:1][S:2][S:4][C:3]", ["CCS.CS", "SCCS.CS", "SCC(S)CS"], [False], ["I"]),
+    # a charged look-alike in the substrate: the ammonium nitrogen has element and enough hydrogens, only its CHARGE differs from
+    # the pattern's amine nitrogen
+    ("amidation-bare", "[C:1](=[O:2])[Cl:3].[NH2:4][C:5]>>[C:1](=[O:2])[NH:4][C:5].[ClH:3]", ["CC(=O)Cl.CN", "CC(=O)Cl.C[NH3+].CN"], [False], ["I"]),
     ("aldol-bare", "[C:1](=[O:2])[CH:3].[C:4]=[O:5]>>[C:1](=[O:2])[C:3][C:4][OH:5]", ["CC(=O)C.CC=O", "CC=O.CC=O", "O=CCC=O"], [False], ["I"]),
     # left-hand patterns more symmetric than the rule (the difference is on the product side only) and isomorphic left
     # components with different roles (disproportionation type): numbering / fragment order must not matter
